@@ -41,7 +41,13 @@ META = {
                   "request's passage are covered by TLC only; the driver replays serialised passages plus a concurrent "
                   "phase judged by order-independent monitors. An eviction grants the evicted address one fresh burst "
                   "(documented in RateLimitConfig); requests that fetched a limiter before its eviction may still be "
-                  "admitted through it (at most one per such request) -- stated in WindowBound, not alarmed.",
+                  "admitted through it (at most one per such request) -- stated in WindowBound, not alarmed. shrex: remote "
+                  "addresses that do not start with an IP component are NOT refused (the comment on remoteIP says they are): "
+                  "they share one bucket, and a circuit-relay address is limited under its relay's IP -- modelled as the code "
+                  "behaves, reported, not alarmed. The directed runs against the limits of limits.go use a configuration in "
+                  "which every scope except the shrex ones is unlimited; how libp2p's default peer / system scopes compare is "
+                  "recorded in the evidence (shrex_limit_table). Real-network phase (websocket, client disconnect): loopback "
+                  "TCP, 'eventually within 60 s' polling, skipped with a note when no socket can be opened.",
     "design_ref": "DESIGN.md section 10",
 }
 
